@@ -120,6 +120,43 @@ class Effects:
         comp_env: Dict[str, ast.AST] = {}     # comprehension target -> iterated expression
         busy: Set[Tuple[str, int]] = set()
 
+        def fresh_rows(v: ast.AST) -> bool:
+            """`v` names a nested list built here whose rows are themselves new lists
+            (`[[.. for x ..] for y ..]`, `[list(r) for r ..]`, `[[..] * n ..]`): one
+            subscript gives a row that belongs to nobody else"""
+            if not isinstance(v, ast.Name):
+                return False
+            ds = w.defs.get(v.id, [])
+            if not ds or any(dd[0] != 'value' for dd in ds):
+                return False
+
+            def new_list(e: ast.AST) -> bool:
+                return isinstance(e, (ast.List, ast.ListComp)) or (
+                    isinstance(e, ast.Call) and src(e.func) == 'list' and len(e.args) == 1) or (
+                    isinstance(e, ast.BinOp) and isinstance(e.op, (ast.Mult, ast.Add))
+                    and (new_list(e.left) or new_list(e.right)))
+            for dd in ds:
+                e = dd[1]
+                if isinstance(e, ast.ListComp):
+                    if not new_list(e.elt):
+                        return False
+                elif isinstance(e, ast.List):
+                    if not e.elts or not all(new_list(x) for x in e.elts):
+                        return False
+                else:
+                    return False
+            # the rows stay private: the name is never re-bound to something else and no
+            # other list is appended to it
+            for ev_ in w.events:
+                if ev_.kind == 'call' and isinstance(ev_.node.func, ast.Attribute) and \
+                        src(ev_.node.func.value) == v.id and \
+                        ev_.node.func.attr in ('append', 'extend', 'insert', '__setitem__'):
+                    return False
+                if ev_.kind == 'store' and isinstance(ev_.target, ast.Subscript) and \
+                        src(ev_.target.value) == v.id:
+                    return False         # a whole row is replaced by something else
+            return True
+
         def elem_of(it: ast.AST, d: int):
             """an element drawn from `it` may be (part of) what `it` is or holds"""
             rec(it, d)
@@ -261,6 +298,8 @@ class Effects:
                     if kind in ('unpack', 'elem-unpack'):
                         con(payload[0], d - 1)
                 return
+            if isinstance(x, ast.Subscript) and fresh_rows(x.value):
+                return                   # a row of a freshly built nested list: new storage
             if isinstance(x, (ast.Attribute, ast.Subscript, ast.Starred)):
                 rec(x.value, d)
                 con(x.value, d)          # a part of a fresh container of caller objects
